@@ -177,6 +177,9 @@ static void DivOp(TempResult* pErg, TempResult* pLVal, TempResult* pRVal) {
     case TempInt:
         if (pRVal->Contents.Int == 0) {
             WrError(ErrNum_DivByZero);
+        } else if (pRVal->Contents.Int == -1) {
+            /* -2^63 / -1 overflows and traps on many CPUs; negate with wrap-around */
+            as_tempres_set_int(pErg, (LargeInt)(0 - (LargeWord)pLVal->Contents.Int));
         } else {
             as_tempres_set_int(pErg, pLVal->Contents.Int / pRVal->Contents.Int);
         }
@@ -196,6 +199,8 @@ static void DivOp(TempResult* pErg, TempResult* pLVal, TempResult* pRVal) {
 static void ModOp(TempResult* pErg, TempResult* pLVal, TempResult* pRVal) {
     if (pRVal->Contents.Int == 0) {
         WrError(ErrNum_DivByZero);
+    } else if (pRVal->Contents.Int == -1) {
+        as_tempres_set_int(pErg, 0);
     } else {
         as_tempres_set_int(pErg, pLVal->Contents.Int % pRVal->Contents.Int);
     }
